@@ -94,7 +94,10 @@ pub fn inject(rng: &mut Rng, dev: &str, b: &mut [u8], img: &Image) -> Option<Str
         "fat_sector_unmarked" => {
             let s = *rng.pick(&img.fat_sectors);
             let off = img.fat_cell_off(s as usize)?;
-            let v = *rng.pick(&[FREE, END]);
+            // whatever the cell holds instead of FATSECT: a special marker, zero, or a stale
+            // ordinary sector number (possibly one that another cell also points to)
+            let r = rng.below(img.nsect.max(1) as u64) as u32;
+            let v = *rng.pick(&[FREE, END, 0, r, img.dir_chain[0], img.hdr.first_dir.wrapping_add(1) % img.nsect.max(1) as u32]);
             wr32(b, off, v);
             Some(format!("FAT cell of FAT sector {s} = {v:#x}"))
         }
@@ -104,7 +107,8 @@ pub fn inject(rng: &mut Rng, dev: &str, b: &mut [u8], img: &Image) -> Option<Str
             }
             let s = *rng.pick(&img.difat_sectors);
             let off = img.fat_cell_off(s as usize)?;
-            let v = *rng.pick(&[FREE, END]);
+            let r = rng.below(img.nsect.max(1) as u64) as u32;
+            let v = *rng.pick(&[FREE, END, 0, r]);
             wr32(b, off, v);
             Some(format!("FAT cell of DIFAT sector {s} = {v:#x}"))
         }
